@@ -101,6 +101,12 @@ pub open spec fn same_but(m1: Map<i32, Job>, m2: Map<i32, Job>, k: i32) -> bool 
     forall|k2: i32| #![trigger m1.contains_key(k2)] #![trigger m2.contains_key(k2)] #![trigger m1[k2]] #![trigger m2[k2]]
         k2 != k ==> (m1.contains_key(k2) == m2.contains_key(k2)) && (m1.contains_key(k2) ==> m1[k2] == m2[k2])
 }
+pub open spec fn job_all_stopped(j: Job) -> bool { forall|i: int| 0 <= i < j.pids@.len() ==> j.pids_stopped@.contains(#[trigger] j.pids@[i]) }
+// a member left: it is forgotten in the stopped set as well, and a job whose remaining members are all stopped is Stopped
+pub open spec fn job_after_remove(a: Job, b: Job, pid: i32) -> bool {
+    a.id == b.id && a.gid == b.gid && a.pids_stopped@ == b.pids_stopped@.remove(pid) && a.is_bg == b.is_bg
+    && a.status@ == (if a.pids@.len() > 0 && job_all_stopped(a) { "Stopped"@ } else { b.status@ })
+}
 pub open spec fn job_eq_except_cmd_pids(a: Job, b: Job) -> bool {
     a.id == b.id && a.gid == b.gid && a.pids_stopped@ == b.pids_stopped@ && a.status@ == b.status@ && a.is_bg == b.is_bg
 }
@@ -205,9 +211,12 @@ get_job_by_gid = Fn(F, 'get_job_by_gid', impl='Shell', rewrites=TYRW, ret='r',
 
 
 def member_fn(name, setop):
+    # a continued member runs again: the job is Running; a stop of one member does not change the status by itself
+    st_i = 'self.jobs@[i].status@ == "Running"@' if setop == 'remove' else 'self.jobs@[i].status@ == old(self).jobs@[i].status@'
+    st_k = 'final(self).jobs@[k].status@ == "Running"@' if setop == 'remove' else 'final(self).jobs@[k].status@ == old(self).jobs@[k].status@'
     changed = ('self.jobs@[i].pids_stopped@ == old(self).jobs@[i].pids_stopped@.%s(pid) '
                '&& self.jobs@[i].pids@ == old(self).jobs@[i].pids@ && self.jobs@[i].id == old(self).jobs@[i].id && self.jobs@[i].gid == gid '
-               '&& self.jobs@[i].status@ == old(self).jobs@[i].status@ && self.jobs@[i].is_bg == old(self).jobs@[i].is_bg' % setop)
+               '&& %s && self.jobs@[i].is_bg == old(self).jobs@[i].is_bg' % (setop, st_i))
     return Fn(F, name, impl='Shell', rewrites=TYRW, ret='r',
         requires=[('C06.pre.wf', 'wf(old(self).jobs@)')],
         ensures=[
@@ -218,8 +227,8 @@ def member_fn(name, setop):
              '&& final(self).jobs@.contains_key(k) && same_but(final(self).jobs@, old(self).jobs@, k) '
              '&& final(self).jobs@[k].pids_stopped@ == old(self).jobs@[k].pids_stopped@.%s(pid) '
              '&& final(self).jobs@[k].pids@ == old(self).jobs@[k].pids@ && final(self).jobs@[k].id == k && final(self).jobs@[k].gid == gid '
-             '&& final(self).jobs@[k].status@ == old(self).jobs@[k].status@ && final(self).jobs@[k].is_bg == old(self).jobs@[k].is_bg '
-             '&& r == Some(&final(self).jobs@[k])' % setop),
+             '&& %s && final(self).jobs@[k].is_bg == old(self).jobs@[k].is_bg '
+             '&& r == Some(&final(self).jobs@[k])' % (setop, st_k)),
         ],
         loops={0: Loop(invariant=[SCAN_INV[0], ('C06.inv.oldwf', 'wf(old(self).jobs@)')],
                        invariant_except_break=SCAN_IEB + SCAN_INV[1:] + [('C06.inv.notfound', 'idx_found == 0')],
@@ -274,14 +283,14 @@ remove_pid_from_job = Fn(F, 'remove_pid_from_job', impl='Shell', ret='r',
          '&& ((!final(self).jobs@.contains_key(k) && r.is_some() && forall|p: i32| old(self).jobs@[k].pids@.contains(p) ==> p == pid) '
          '    || (r.is_none() && final(self).jobs@.contains_key(k) && removed_one(old(self).jobs@[k].pids@, final(self).jobs@[k].pids@, pid) '
          '        && !final(self).jobs@[k].pids@.contains(pid) && final(self).jobs@[k].pids@.len() > 0 '
-         '        && job_eq_except_cmd_pids(final(self).jobs@[k], old(self).jobs@[k])))'),
+         '        && job_after_remove(final(self).jobs@[k], old(self).jobs@[k], pid)))'),
         ('C06.remove.wf', 'wf(final(self).jobs@)'),
     ],
     loops={0: Loop(invariant=[SCAN_INV[0]], invariant_except_break=SCAN_IEB + SCAN_INV[1:] + [('C06.inv.rm_flag', '!empty_pids')],
                    ensures=[('C06.remove.pid_removed_at_loop_exit',
                              '(i == 65535 && self.jobs@ == old(self).jobs@ && !has_gid(old(self).jobs@, gid) && !empty_pids) || '
                              '(1 <= i < 65535 && old(self).jobs@.contains_key(i) && old(self).jobs@[i].gid == gid && self.jobs@.contains_key(i) '
-                             ' && same_but(self.jobs@, old(self).jobs@, i) && job_eq_except_cmd_pids(self.jobs@[i], old(self).jobs@[i]) '
+                             ' && same_but(self.jobs@, old(self).jobs@, i) && job_after_remove(self.jobs@[i], old(self).jobs@[i], pid) '
                              ' && removed_one(old(self).jobs@[i].pids@, self.jobs@[i].pids@, pid) && !self.jobs@[i].pids@.contains(pid) '
                              ' && self.jobs@[i].pids@.no_duplicates() && empty_pids == (self.jobs@[i].pids@.len() == 0))')],
                    decreases='65535 - i')},
